@@ -130,3 +130,133 @@ Theorem C04_revert_path_valid :
            revert_path (Some m) p = Ok q /\ length q = length p /\ run state (acts G) b q = Some a.
 Proof. exact @revert_path_valid. Qed.
 Print Assumptions C04_revert_path_valid.
+
+From V Require Import Base Tensor Graph GraphProofs GraphImpl Hash Def Paths BfsStep Bfs BfsRun BfsProofs PathsProofs Mitm MitmProofs PathRun MitmFind Interactive InteractiveBetween InstPerm InstSmall InstBfs InstPaths.
+
+(* END TO END on env_of d (graph and inverted copy built from a well-formed permutation description): only NoColl remains *)
+Theorem C04_perm_find_path_to_sound :
+  forall (d : gdesc) (inv_mats : list (list (list BinNums.Z))) (e : path_env),
+         wf_perm_desc d ->
+         env_of d inv_mats = Some e ->
+         NoCollOn (impl_of d) (Ustates d) ->
+         forall c : state,
+         Ustates d c ->
+         forall (lh : list (list BinNums.Z)) (ns : nat) (q : state) (p : list nat),
+         ball_ok (pe_G e) c lh ->
+         Ustates d q ->
+         find_path_to (pe_G e) (pe_Ginv e) lh ns q = Ok (Some p) ->
+         run state (acts (pe_G e)) c p = Some q /\
+         dist_is state (acts (pe_G e)) (c :: nil) q (length p) /\ length p < length lh.
+Proof. exact @find_path_to_perm_sound. Qed.
+Print Assumptions C04_perm_find_path_to_sound.
+
+(* completeness, same hypotheses *)
+Theorem C04_perm_find_path_to_complete :
+  forall (d : gdesc) (inv_mats : list (list (list BinNums.Z))) (e : path_env),
+         wf_perm_desc d ->
+         env_of d inv_mats = Some e ->
+         NoCollOn (impl_of d) (Ustates d) ->
+         forall c : state,
+         Ustates d c ->
+         forall (lh : list (list BinNums.Z)) (ns : nat) (q : state),
+         ball_ok (pe_G e) c lh ->
+         Ustates d q ->
+         length lh = ns ->
+         (find_path_to (pe_G e) (pe_Ginv e) lh ns q = Ok None <->
+          (forall i : nat,
+           i < length lh -> ~ List.In q (layer state st_eq_dec (acts (pe_G e)) (c :: nil) i))) /\
+         (exists r : option (list nat), find_path_to (pe_G e) (pe_Ginv e) lh ns q = Ok r).
+Proof. exact @find_path_to_perm_complete. Qed.
+Print Assumptions C04_perm_find_path_to_complete.
+
+(* single-word identity hash: no hash hypothesis *)
+Theorem C04_perm_find_path_to_shortest_unconditional :
+  forall (d : gdesc) (inv_mats : list (list (list BinNums.Z))) (e : path_env),
+         wf_perm_desc d ->
+         env_of d inv_mats = Some e ->
+         g_hasher d = HIdentity ->
+         single_word d ->
+         forall c : state,
+         Ustates d c ->
+         forall (lh : list (list BinNums.Z)) (ns : nat) (q : state) (p : list nat),
+         ball_ok (pe_G e) c lh ->
+         Ustates d q ->
+         find_path_to (pe_G e) (pe_Ginv e) lh ns q = Ok (Some p) ->
+         forall p' : list nat, run state (acts (pe_G e)) c p' = Some q -> length p <= length p'.
+Proof. exact @find_path_to_perm_shortest_unconditional. Qed.
+Print Assumptions C04_perm_find_path_to_shortest_unconditional.
+
+(* find_path_from, single-word identity hash: no hash hypothesis *)
+Theorem C04_perm_find_path_from_sound_unconditional :
+  forall (d : gdesc) (inv_mats : list (list (list BinNums.Z))) (e : path_env),
+         wf_perm_desc d ->
+         env_of d inv_mats = Some e ->
+         g_hasher d = HIdentity ->
+         single_word d ->
+         forall c : state,
+         Ustates d c ->
+         forall (m : list nat) (lh : list (list BinNums.Z)) (ns : nat) (q : state) (p : list nat),
+         pe_invmap e = Some m ->
+         ball_ok (pe_G e) c lh ->
+         Ustates d q ->
+         find_path_from (pe_G e) (pe_Ginv e) (Some m) lh ns q = Ok (Some p) ->
+         run state (acts (pe_G e)) q p = Some c /\
+         dist_is state (acts (pe_G e)) (c :: nil) q (length p).
+Proof. exact @find_path_from_perm_sound_unconditional. Qed.
+Print Assumptions C04_perm_find_path_from_sound_unconditional.
+
+(* restore_path, single-word identity hash: no hash hypothesis *)
+Theorem C04_perm_restore_path_unconditional :
+  forall (d : gdesc) (inv_mats : list (list (list BinNums.Z))) (e : path_env),
+         wf_perm_desc d ->
+         env_of d inv_mats = Some e ->
+         g_hasher d = HIdentity ->
+         single_word d ->
+         forall c : state,
+         Ustates d c ->
+         forall (lh : list (list BinNums.Z)) (i : nat) (q : state),
+         ball_ok (pe_G e) c lh ->
+         i <= length lh ->
+         List.In q (layer state st_eq_dec (acts (pe_G e)) (c :: nil) i) ->
+         exists p : list nat,
+           restore_path (pe_G e) (pe_Ginv e) (List.firstn i lh) q = Ok p /\
+           length p = i /\ run state (acts (pe_G e)) c p = Some q.
+Proof. exact @restore_path_perm_correct_unconditional. Qed.
+Print Assumptions C04_perm_restore_path_unconditional.
+
+From V Require Import Base Tensor Graph GraphProofs GraphImpl Hash Matrix MatrixProofs Def Paths BfsStep Bfs BfsRun BfsProofs PathsProofs Mitm MitmProofs PathRun MitmFind InstShared InstMatrix InstMatrixAlgebra InstMatrixBfs.
+
+(* END TO END on env_of d inv_mats for matrix groups (inverse matrices as data that passed the product check): only NoColl remains *)
+Theorem C04_matrix_find_path_to_sound :
+  forall (d : gdesc) (inv_mats : list (list (list BinNums.Z))) (e : path_env),
+         wf_matrix_core d = true ->
+         wf_inv_mats d inv_mats = true ->
+         env_of d inv_mats = Some e ->
+         NoCollMat d ->
+         forall (lh : list (list BinNums.Z)) (ns : nat) (q : state) (p : list nat),
+         ball_ok (pe_G e) (central (pe_G e)) lh ->
+         Umat d q ->
+         find_path_to (pe_G e) (pe_Ginv e) lh ns q = Ok (Some p) ->
+         run state (acts (pe_G e)) (central (pe_G e)) p = Some q /\
+         dist_is state (acts (pe_G e)) (central (pe_G e) :: nil) q (length p) /\ length p < length lh.
+Proof. exact @matrix_find_path_to_sound. Qed.
+Print Assumptions C04_matrix_find_path_to_sound.
+
+(* completeness, same hypotheses *)
+Theorem C04_matrix_find_path_to_complete :
+  forall (d : gdesc) (inv_mats : list (list (list BinNums.Z))) (e : path_env),
+         wf_matrix_core d = true ->
+         wf_inv_mats d inv_mats = true ->
+         env_of d inv_mats = Some e ->
+         NoCollMat d ->
+         forall (lh : list (list BinNums.Z)) (ns : nat) (q : state),
+         ball_ok (pe_G e) (central (pe_G e)) lh ->
+         Umat d q ->
+         length lh = ns ->
+         (find_path_to (pe_G e) (pe_Ginv e) lh ns q = Ok None <->
+          (forall i : nat,
+           i < length lh ->
+           ~ List.In q (layer state st_eq_dec (acts (pe_G e)) (central (pe_G e) :: nil) i))) /\
+         (exists r : option (list nat), find_path_to (pe_G e) (pe_Ginv e) lh ns q = Ok r).
+Proof. exact @matrix_find_path_to_complete. Qed.
+Print Assumptions C04_matrix_find_path_to_complete.
